@@ -11,7 +11,7 @@ def load_prop(pid):
 
 
 def spec_eval(model_exe, lines, rundir):
-    return core.run_lines(model_exe, lines, rundir, "spec", shards=1) if lines else []
+    return core.run_lines(model_exe, lines, rundir, "spec", shards=min(len(lines), core.NCPU), timeout=150) if lines else []
 
 
 def run_check(pid, tier, seed, replay=None):
@@ -79,7 +79,9 @@ def run_check(pid, tier, seed, replay=None):
     viol = []     # concrete: impl != spec
     nospec = []   # impl != model, no spec verdict separates them
     if mism:
-        withspec = [i for i in mism if cases[i].spec][:200]
+        # the spec is evaluated on the smallest disagreeing cases only (specs are written for clarity, not speed)
+        costf = getattr(prop, "spec_cost", lambda c: len(c.line))
+        withspec = sorted([i for i in mism if cases[i].spec], key=lambda i: costf(cases[i]))[:25]
         specout = spec_eval(model_exe, [cases[i].spec for i in withspec], rundir)
         sp = dict(zip(withspec, specout))
         for i in mism:
